@@ -119,6 +119,12 @@ func (o *matrixSelector) Next(ctx context.Context) ([]model.StepVector, error) {
 
 	vectors := o.vectorPool.GetVectorBatch()
 	ts := o.currentStep
+	// Emit one step vector per step of the batch even if this shard has no series,
+	// so that consumers which produce a value for empty input (e.g. scalar()) see every step.
+	for currStep, stepTs := 0, ts; currStep < o.numSteps && stepTs <= o.maxt; currStep++ {
+		vectors = append(vectors, o.vectorPool.GetStepVector(stepTs))
+		stepTs += o.step
+	}
 	for i := 0; i < len(o.scanners); i++ {
 		var (
 			series   = o.scanners[i]
